@@ -152,7 +152,8 @@ def gen_tgt(rng, refpos, cls):
 
 
 def gen_scale(rng):
-    return rng.choice([1.0, 0.5, 2.0, 1e-3, rng.uniform(1e-3, 2.0), rng.uniform(0.05, 2.0)])
+    # 0.0 is a scale factor like any other (every mapped atom ON its anchor); seed C03-5: `scale or default`
+    return rng.choice([1.0, 0.5, 2.0, 1e-3, 0.0, rng.uniform(1e-3, 2.0), rng.uniform(0.05, 2.0)])
 
 
 def gen_rigid(rng):
@@ -239,7 +240,38 @@ def run_impl(ctx, case):
     refpos = case["ref"]["pos"]
     bonds = [tuple(b) for b in case["ref"]["bonds"]]
     n = len(refpos)
-    ref = make_molecule(ctx.scratch, "REF", [f"C{k}" for k in range(n)], refpos, bonds)
+    # "late bond": one bond of the reference (a cycle-closing one, so the molecule loads connected without it)
+    # is NOT in the topology file; it is added with AtomTop.connect after the molecule has been loaded AND after a
+    # throw-away map has been built from it (so that every per-atom derived datum — e.g. a cached sorted bond
+    # list, seed C03-6 — has been computed for the old bond sets).  From then on the frame neighbours are the
+    # two lowest-numbered atoms of the CURRENT bond sets.
+    late = None
+    if case.get("latebond", case.get("seed", 0) % 5 == 0) and n >= 3:
+        und = sorted({tuple(sorted(b)) for b in bonds})
+        for cand in sorted(und, key=lambda b: (b[0], -b[1])):
+            rest = [b for b in und if b != cand]
+            seen, stack = {0}, [0]
+            adj = neighbours(n, rest)
+            while stack:
+                for j in adj[stack.pop()]:
+                    if j not in seen:
+                        seen.add(j)
+                        stack.append(j)
+            if len(seen) == n and all(len(adj[a]) >= 1 for a in range(n)):
+                late = cand
+                break
+    file_bonds = [b for b in bonds if late is None or tuple(sorted(b)) != late]
+    ref = make_molecule(ctx.scratch, "REF", [f"C{k}" for k in range(n)], refpos, file_bonds)
+    if late is not None:
+        ctx.count("topology:bond-added-after-first-use")
+        try:
+            with np.errstate(all="ignore"):
+                throwaway_t = make_molecule(ctx.scratch, "REF", ["A0"], [list(refpos[0])], [])
+                ExchangeMap(ref, throwaway_t, 1.0)(ref.copy())
+        except Exception:   # noqa: BLE001
+            pass
+        a, b = late if case.get("seed", 0) % 2 == 0 else late[::-1]
+        ref.molecule_top[a].connect(ref.molecule_top[b])
     m = len(case["tgt"])
     tgt = make_molecule(ctx.scratch, "REF", [f"A{k}" for k in range(m)], case["tgt"],
                         [(k, k + 1) for k in range(m - 1)])
